@@ -81,7 +81,7 @@ def run(tier="quick", seed=0):
     from rig.place_and_route import exceptions as X
     from rig.place_and_route.place import sa, sequential, breadth_first, hilbert, rand, rcm
     from rig.place_and_route.place import utils as PU
-    from rig.routing_table import (Routes, RoutingTableEntry as RTE, routing_tree_to_tables, minimise_tables,
+    from rig.routing_table import (Routes, routing_tree_to_tables, minimise_tables,
                                    minimise_table, MinimisationFailedError, MultisourceRouteError)
     from rig.routing_table import ordered_covering as oc, remove_default_routes as dr
 
@@ -334,7 +334,6 @@ def run(tier="quick", seed=0):
             warnings.simplefilter("ignore")
             genv[0] = G.Env()
             body()
-            seconds_a = time.time() - t0
             calls_a = ev
 
             # ------------------------------------------------------------------ (b) history independence
